@@ -71,6 +71,23 @@ def vertlineMV (R : Mat) (M : List Bool) (n : Nat) : List Nat :=
 def diaglineMV (R : Mat) (M : List Bool) (n : Nat) : List Nat :=
   kernel true ((diagCoords n).map (cellsOf R M true)) n
 
+/-! ### round 4: the Python layer of `RecurrencePlot.diagline_dist()` (matrix mode, no missing
+values): the kernel scans one triangle; the result is doubled when `np.array_equal(R, R.T)`,
+otherwise the second triangle is counted on the transposed matrix (repair a888ef2). -/
+
+def Mat.tr (R : Mat) (n : Nat) : Mat :=
+  (List.range n).map fun i => (List.range n).map fun j => R.at j i
+
+/-- `np.array_equal(recmat, recmat.T)` -/
+def symmetricB (R : Mat) (n : Nat) : Bool :=
+  (List.range n).all fun i => (List.range n).all fun j => R.at i j == R.at j i
+
+def addHist (a b : List Nat) : List Nat := List.zipWith (· + ·) a b
+
+def diaglineDist (R : Mat) (n : Nat) : List Nat :=
+  let d := diagline R n
+  if symmetricB R n then d.map (2 * ·) else addHist d (diagline (R.tr n) n)
+
 /-! ### Specification: lengths of the maximal runs of `true` -/
 
 def runsAux : Nat → List Bool → List Nat
